@@ -250,6 +250,10 @@ class StmtMixin(object):
             return [Opaque(("sorted_item", val.key(), i)) for i in range(n)]
         if isinstance(val, SeqV) and val.kind == "opaque":
             return [self.seq_elem(val, ep.const(i)) for i in range(n)]
+        if isinstance(val, Phi) and val.a is not None and val.b is not None:
+            # unpacking distributes over a conditional value
+            ua, ub = self.unpack(val.a, n, node), self.unpack(val.b, n, node)
+            return [make_phi(val.cond, x, y) for x, y in zip(ua, ub)]
         self.err(node, "unpacking of %r" % (val,))
 
     def setitem(self, base, idx, val, node):
